@@ -156,40 +156,52 @@ func VerifC18_suitable_exact() {
 	vReach("end")
 }
 
-// The four PickUp loops against an UNINTERPRETED predicate: valid for every divider.
+// The four PickUp loops against an ARBITRARY predicate on [0,M]: a table of unconstrained booleans,
+// looked up without forking (so it behaves as an uninterpreted predicate, but its values are plain
+// model constants and every counterexample can be replayed, also natively). Valid for every divider.
+var c18Table []bool
+
+func c18P(q uint) bool {
+	r := false
+	for k := range c18Table {
+		r = vOr(r, vAnd(q == uint(k), c18Table[k]))
+	}
+	return r
+}
+
 func c18PredNF(combinations [][]uint, d divider.Divider, quantity uint) bool {
-	return vUFBool("P", quantity)
+	return c18P(quantity)
 }
 
 func c18PredS(combinations [][]uint, priorities []uint, d divider.Divider, quantity uint, limit float64) bool {
-	return vUFBool("P", quantity)
+	return c18P(quantity)
 }
 
 func c18CheckMin(r, max uint, M int) {
 	if r == 0 {
 		for k := uint(1); k <= uint(M); k++ {
-			vAssert(vOr(k > max, !vUFBool("P", k)), "PickUpMin returns 0 only if no quantity in [1,max] satisfies the predicate")
+			vAssert(vOr(k > max, !c18P(k)), "PickUpMin returns 0 only if no quantity in [1,max] satisfies the predicate")
 		}
 		return
 	}
 	vAssert(vAnd(r >= 1, r <= max), "PickUpMin result lies in [1,max]")
-	vAssert(vUFBool("P", r), "PickUpMin result satisfies the predicate")
+	vAssert(c18P(r), "PickUpMin result satisfies the predicate")
 	for k := uint(1); k <= uint(M); k++ {
-		vAssert(vOr(k >= r, !vUFBool("P", k)), "PickUpMin result is the least such quantity")
+		vAssert(vOr(k >= r, !c18P(k)), "PickUpMin result is the least such quantity")
 	}
 }
 
 func c18CheckMax(r, max uint, M int) {
 	if r == 0 {
 		for k := uint(1); k <= uint(M); k++ {
-			vAssert(vOr(k > max, !vUFBool("P", k)), "PickUpMax returns 0 only if no quantity in [1,max] satisfies the predicate")
+			vAssert(vOr(k > max, !c18P(k)), "PickUpMax returns 0 only if no quantity in [1,max] satisfies the predicate")
 		}
 		return
 	}
 	vAssert(vAnd(r >= 1, r <= max), "PickUpMax result lies in [1,max]")
-	vAssert(vUFBool("P", r), "PickUpMax result satisfies the predicate")
+	vAssert(c18P(r), "PickUpMax result satisfies the predicate")
 	for k := uint(1); k <= uint(M); k++ {
-		vAssert(vOr(k <= r, k > max, !vUFBool("P", k)), "PickUpMax result is the greatest such quantity")
+		vAssert(vOr(k <= r, k > max, !c18P(k)), "PickUpMax result is the greatest such quantity")
 	}
 }
 
@@ -199,6 +211,10 @@ func VerifC18_pickup() {
 	_, shuffled := c18Priorities(2)
 	max := vNondetUint("max")
 	vAssume(max <= uint(M))
+	c18Table = nil
+	for k := 0; k <= M; k++ {
+		c18Table = append(c18Table, vNondetBool("P"))
+	}
 	vReplace("isNonFatalConfig", c18PredNF)
 	vReplace("isSuitableConfig", c18PredS)
 	switch vChoose("which", 4) {
